@@ -177,11 +177,23 @@ def gen_shell_trace(rng):
             val = [round(5.0 / (i + 1), 3) for i in range(m)]
         else:
             val = {"mat": [nexp if rng.random() < 0.8 else nexp + 1, n]}
+        if attr != "coeffs" and rng.random() < 0.12:
+            # a scalar where a one-dimensional array belongs (most tempting when the count is one)
+            val = {"scalar": {"angmoms": 2, "kinds": "p", "exponents": 0.5}[attr]}
         ops.append({"who": "mut", "op": "set", "attr": attr, "value": val})
+    if rng.random() < 0.12:
+        a_ = rng.choice(["angmoms", "kinds", "exponents"])
+        kw[a_] = {"scalar": {"angmoms": 2, "kinds": "p", "exponents": 0.5}[a_]}
+        if a_ != "exponents" and rng.random() < 0.7:
+            kw["coeffs"] = {"mat": [nexp, 1]}
+        elif a_ == "exponents" and rng.random() < 0.7:
+            kw["coeffs"] = {"mat": [1, ncon]}
     return {"target": "shell", "ops": ops}
 
 
 def mk(v):
+    if isinstance(v, dict) and "scalar" in v:
+        return v["scalar"]
     if isinstance(v, dict) and "narrow" in v:
         return np.array(v["data"], dtype=v["narrow"])  # a caller-supplied array of a narrow dtype
     if isinstance(v, dict) and "mat" in v:
@@ -383,6 +395,9 @@ def run_ops(trace, with_observer=True):
                 info["rejected"] += 1
                 mut.append(type(exc).__name__)
                 return out, mut, info
+            for a_, v_ in op["kwargs"].items():
+                if isinstance(v_, dict) and "scalar" in v_:
+                    out.append(_v("J10_scalar_accepted", f"constructed with {a_}={v_['scalar']!r}: a scalar where a one-dimensional array belongs was accepted", trace, k, a_))
             (mo_invariants if target == "mo" else shell_invariants)(obj, trace, k, out)
             continue
         if obj is None:
@@ -411,6 +426,8 @@ def run_ops(trace, with_observer=True):
                 out.append(_v("J6_generalized_spin_access", f"{attr} assignment on generalized orbitals raised {type(raised).__name__}", trace, k, attr))
             continue
         mut.append("ok")
+        if isinstance(op["value"], dict) and "scalar" in op["value"]:
+            out.append(_v("J10_scalar_accepted", f"{attr}={op['value']['scalar']!r}: a scalar where a one-dimensional array belongs was accepted", trace, k, attr))
         if target == "mo" and attr in ("norba", "norbb"):
             if obj.kind == "restricted" and obj.norba != obj.norbb:
                 out.append(_v("J7_kind_contradiction", f"{attr}={op['value']} accepted: restricted orbitals with norba {obj.norba} != norbb {obj.norbb}", trace, k, attr))
@@ -452,6 +469,43 @@ def setup_worker():
 
 BACKGROUND = [{"file": "h2o_sto3g.wfn"}, {"file": "he_s_orbital.wfn"}, {"file": "lih_cation_uhf.wfn"}, {"file": "h2o_sto3g.fchk"},
               {"file": "h2_sto3g.mkl"}, {"file": "lih_cation_uhf.wfx"}, {"file": "h2o.molden.input"}, {"file": "water.xyz"}]
+
+
+def run_shared(trace, rng=None):
+    """Two clients on ONE unrestricted MolecularOrbitals object, one assigning alpha and one beta occupations (each a few
+    times): the two halves are independent registers - in the end each spin must read what its own client assigned last
+    ("assigning alpha or beta occupations reads back as assigned while leaving the other spin unchanged", under any
+    interleaving of the two writers)."""
+    from iodata.orbitals import MolecularOrbitals
+
+    from sim import sched
+
+    sh = trace["shared_mo"]
+    na, nb = sh["norba"], sh["norbb"]
+    mo = MolecularOrbitals("unrestricted", na, nb, occs=np.zeros(na + nb))
+    policy = tuple(trace["policy"])
+    if trace.get("schedule") is not None:
+        policy = ("replay", trace["schedule"])
+    baton = sched.Baton(rng, policy, horizon=2000)
+
+    def writer(attr, values):
+        def body():
+            for v in values:
+                setattr(mo, attr, np.array(v, dtype=float))
+        return body
+
+    with sched.Steps(budget=1_000_000, sched=baton) as st:
+        done = baton.run([writer("occsa", sh["alpha"]), writer("occsb", sh["beta"])])
+    out = []
+    for c in done:
+        if c.error is not None:
+            out.append({"cls": "T0_client_died", "sig": f"T0_client_died|{type(c.error).__name__}", "msg": f"client {c.idx} died: {type(c.error).__name__}: {c.error}", "trace": copy.deepcopy(trace)})
+    if not out:
+        ga, gb = np.array(mo.occsa), np.array(mo.occsb)
+        if not (np.array_equal(ga, np.array(sh["alpha"][-1], float)) and np.array_equal(gb, np.array(sh["beta"][-1], float))):
+            out.append({"cls": "T2_assignment_lost", "sig": "T2_assignment_lost|", "trace": copy.deepcopy(trace),
+                        "msg": f"one client assigned occsa {sh['alpha']}, the other occsb {sh['beta']} (in this order each); in the end occsa reads {ga.tolist()} and occsb {gb.tolist()}"})
+    return out, baton, st.steps
 
 
 def run_threads(trace, rng=None):
@@ -503,6 +557,8 @@ def run_threads(trace, rng=None):
 
 
 def execute(trace):
+    if "shared_mo" in trace:
+        return run_shared(trace, rng=common.rng_for("replay"))[0]
     if trace.get("pyopt") and not sys.flags.optimize:
         from sim import pyopt
 
@@ -613,6 +669,22 @@ def run_task(task):
     sample = None
     if "threads" in task:
         for j in range(task["threads"]):
+            if j % 3 == 2:
+                # one shared object, two writers of disjoint halves
+                na, nb = rng.randint(1, 3), rng.randint(1, 3)
+                vals = lambda n_: [[round(rng.choice([0.0, 1.0, 0.25, 0.5]) + 0.001 * (t_ + 1), 3) for _ in range(n_)] for t_ in range(rng.randint(1, 3))]  # noqa: E731
+                trace = {"shared_mo": {"norba": na, "norbb": nb, "alpha": vals(na), "beta": vals(nb)},
+                         "policy": rng.choice([["random", 0.2], ["random", 0.05], ["newline", 0.05, 0.3], ["pct", 2]]), "schedule": None}
+                srng = common.rng_for(task["seed"], ID, task["run"], j, "schedule")
+                vs, baton, steps = run_shared(trace, srng)
+                for v in vs:
+                    v["trace"]["schedule"] = baton.replay_list()
+                viols.extend(vs)
+                stats.inc("outcome.shared_object_runs")
+                stats.inc("steps", steps)
+                stats.add("schedules", common.short(repr(baton.switches)))
+                dig.append((common.short(common.jdump(trace)), len(vs), common.short(repr(baton.switches))))
+                continue
             r = rng.random()
             policy = ["random", rng.choice([0.01, 0.05, 0.2])] if r < 0.6 else ["newline", 0.01, rng.choice([0.1, 0.3])] if r < 0.8 else ["pct", rng.choice([1, 2, 3])]
             trace = {"histories": [gen_mo_trace(rng) if rng.random() < 0.7 else gen_shell_trace(rng) for _ in range(rng.choice([1, 2, 2]))],
@@ -664,7 +736,7 @@ def run_task(task):
 
 def shrink(trace, still_fails):
     t = copy.deepcopy(trace)
-    if "histories" in t:
+    if "histories" in t or "shared_mo" in t:
         if t.get("schedule"):
             t["schedule"] = shr.ddmin_list(t["schedule"], lambda sc: still_fails({**t, "schedule": sc}))
         return t
